@@ -160,6 +160,56 @@ fn rankdef_case<T: Sc>(rng: &mut Rng, case: u64, out: &mut CaseOut) {
     }
 }
 
+/// default threshold + weights of large or tiny magnitude: the truncation must look at the weighted
+/// basis matrix only. Designed model with singular values of W·Phi between 1e2·eps and 1e6·eps.
+fn scaled_weights_case<T: Sc>(rng: &mut Rng, case: u64, out: &mut CaseOut) {
+    let stream = "scaled-weights-default-threshold";
+    let eps = T::EPS;
+    let n = rng.int(3, 12);
+    let m = rng.int(1, n.min(3));
+    let q = la::orthonormalize(&Mat::from_fn(n, m, |_, _| rng.normal()));
+    let sv: Vec<f64> = (0..m).map(|_| eps * rng.logrange(1e2, 1e6)).collect();
+    let wmag = 10f64.powf(rng.range(3.0, 8.0) * rng.sign());
+    let w: Vec<f64> = (0..n).map(|_| wmag * rng.range(0.5, 2.0) * rng.sign()).collect();
+    let inv_w: Vec<f64> = w.iter().map(|x| 1.0 / x).collect();
+    let d = crate::zoo::DesignedSpec { q, s: sv.clone(), inv_w: Some(inv_w) };
+    let np = d.np();
+    let alpha0: Vec<f64> = (0..np).map(|_| rng.range(-3.0, 3.0)).collect();
+    let s1 = sv.iter().cloned().fold(0.0, f64::max);
+    let scols = rng.int(1, 2);
+    // data chosen so that W·Y is of the size of the singular values
+    let y = Mat::from_fn(n, scols, |i, _| rng.normal() * s1 / w[i].abs());
+    let spec = ProblemSpec { model: ModelKind::Designed(d), alpha0, y, w: Some(w), eps: None, mrhs: scols > 1, par: rng.chance(0.3) };
+    let bspec = prescaled::<T>(&spec);
+    let (Ok(a), Ok(b)) = (build_problem::<T>(&spec, &SpyCtl::new()), build_problem::<T>(&bspec, &SpyCtl::new())) else {
+        violation(out, stream, case, "valid problem rejected", spec.to_json());
+        return;
+    };
+    let sa = snap(&a, true);
+    let sb = snap(&b, true);
+    let v = View::new::<T>(&spec, &sa.params);
+    out.evals += 1;
+    // all singular values of W·Phi are decisively above the default threshold: both twins must keep them
+    if !v.finite() || v.sigma_min() < 16.0 * eps || v.kappa() * eps > 1e-3 {
+        out.inconcl("designed scaled-weights case not decisive");
+        return;
+    }
+    out.nontrivial.push(spec.hash());
+    out.seen("weight_magnitude", format!("1e{:+.0}", wmag.log10().round()));
+    let yw = widen(&a.weighted_data());
+    let dn = dnorms::<T>(&spec, &sa.params, &v.w);
+    for s in 0..spec.s() {
+        match close_ratio(&v, yw.col(s), &sa, s, &sb, s, &dn, eps) {
+            Ok((rc, rr, rj)) if rc <= 1.0 && rr <= 1.0 && rj <= 1.0 => out.ratio("scaled_weights_twins", rc.max(rr).max(rj)),
+            other => {
+                violation(out, stream, case, format!("weights of magnitude {wmag:e} with the default threshold: weighted problem and pre-scaled twin disagree: {other:?}"),
+                    json!({"problem": spec.to_json(), "singular_values_of_weighted_basis": v.sv, "A_coeff": sa.coeff.as_ref().map(|m| m.d.clone()), "B_coeff": sb.coeff.as_ref().map(|m| m.d.clone())}));
+                return;
+            }
+        }
+    }
+}
+
 fn fit_twin_case<T: Sc>(rng: &mut Rng, case: u64, out: &mut CaseOut) {
     let stream = "prescaled-fit";
     let g = gen_problem(rng, &GenOpts { nmax: 40, smax: 3, noise: 0.02, ..Default::default() });
@@ -381,9 +431,10 @@ pub fn run(ctx: &Ctx) {
     ctx.assume("the confidence band is deliberately not compared between twins (it uses the unweighted Jacobian by definition)");
     let t = ctx.tier;
     let b = t.pick(15.0, 150.0);
-    ctx.run_cases("prescaled-twin", t.pick(1500, 40000), b, |r, c, o| if c % 3 == 0 { twin_case::<f32>(r, c, o) } else { twin_case::<f64>(r, c, o) });
-    ctx.run_cases("rank-deficient", t.pick(400, 8000), b, |r, c, o| if c % 3 == 0 { rankdef_case::<f32>(r, c, o) } else { rankdef_case::<f64>(r, c, o) });
-    ctx.run_cases("prescaled-fit", t.pick(400, 10000), b, |r, c, o| if c % 4 == 0 { fit_twin_case::<f32>(r, c, o) } else { fit_twin_case::<f64>(r, c, o) });
-    ctx.run_cases("unit-vs-none", t.pick(400, 8000), b, |r, c, o| if c % 3 == 0 { unit_case::<f32>(r, c, o) } else { unit_case::<f64>(r, c, o) });
-    ctx.run_cases("zero-weights", t.pick(500, 10000), b, |r, c, o| if c % 3 == 0 { zero_case::<f32>(r, c, o) } else { zero_case::<f64>(r, c, o) });
+    ctx.run_cases("prescaled-twin", t.pick(6000, 40000), b, |r, c, o| if c % 3 == 0 { twin_case::<f32>(r, c, o) } else { twin_case::<f64>(r, c, o) });
+    ctx.run_cases("rank-deficient", t.pick(2000, 8000), b, |r, c, o| if c % 3 == 0 { rankdef_case::<f32>(r, c, o) } else { rankdef_case::<f64>(r, c, o) });
+    ctx.run_cases("scaled-weights-default-threshold", t.pick(3000, 12000), b, |r, c, o| if c % 3 == 0 { scaled_weights_case::<f32>(r, c, o) } else { scaled_weights_case::<f64>(r, c, o) });
+    ctx.run_cases("prescaled-fit", t.pick(2500, 10000), b, |r, c, o| if c % 4 == 0 { fit_twin_case::<f32>(r, c, o) } else { fit_twin_case::<f64>(r, c, o) });
+    ctx.run_cases("unit-vs-none", t.pick(1500, 8000), b, |r, c, o| if c % 3 == 0 { unit_case::<f32>(r, c, o) } else { unit_case::<f64>(r, c, o) });
+    ctx.run_cases("zero-weights", t.pick(2000, 10000), b, |r, c, o| if c % 3 == 0 { zero_case::<f32>(r, c, o) } else { zero_case::<f64>(r, c, o) });
 }
